@@ -302,6 +302,9 @@ def run(ctx):
     ctx.coverage["translator"] = (p.stdout + p.stderr).strip()[-300:]
     if p.returncode != 0:
         ctx.broke("translator", "gen_stopchain (out of grammar)", p.stdout + p.stderr)
+    # translator G9: regenerate gen/KernelsGen.v (criteria switch, loop lambdas), status in ctx.coverage["translator_kernels"], re-check KernelsGenEq.v
+    from vf.props import KERNELS
+    KERNELS.pre(ctx)
     check_properties(ctx)
     if not build_driver(ctx, "C06") or not build_driver(ctx, "solve"):
         return
@@ -342,6 +345,7 @@ def run(ctx):
     if failing:
         k = failing[0]
         ctx.broke("correspondence", "SolverKernels/StopChain vs drv_C06 (%s)" % cases[k]["op"], json.dumps({"input": kin(cases[k]), "impl": outs[k], "model": getattr(ctx, "last_dump", "")}))
+    KERNELS.attach_crit(ctx, cases, outs)    # generated g_crit_eps / g_crit_needs_gradh vs the same direct calls, at binary64
     # ---- max_no_progress = 0 : division by zero in every loop (own process: it may crash)
     for solver, direction in [("panoc", "lbfgs"), ("zerofpr", "lbfgs"), ("fista", "-")]:
         prob, _ = sl.gen_problem(Rng(1), "qp", n=2, m=0)
@@ -375,6 +379,7 @@ def run(ctx):
             ctx.violation(sig, msg, {"driver": "drv_solve", "input": rq.to_input(), "request": rq.describe(),
                                      "impl_output": {k: v for k, v in o.items() if k != "records"}, "final_record": o["records"][-1] if o["records"] else None, "why": msg})
 
+    KERNELS.attach_runs(ctx, [r for _, _, _, r in reqs], outs2)     # generated loop kernels vs the callback records of these runs
     failing = coq_failing_cases(ctx, "np", "Prox SolverStatus SolverKernels StopChain Corr_C06", "c06case", "chk06", np_terms)
     ctx.coverage["no_progress_traces_checked"] = len(np_terms)
     if failing:
